@@ -68,6 +68,23 @@ class Tag:
         return 'Tag(%d)' % self.x
 
 
+class Wild(Tag):
+    """A hashable argument that compares equal to everything (unittest.mock.ANY-like)."""
+    __slots__ = ()
+
+    def __eq__(self, other):
+        return True
+
+    def __ne__(self, other):
+        return False
+
+    def __hash__(self):
+        return hash(('wild', self.x))
+
+    def __repr__(self):
+        return 'Wild(%d)' % self.x
+
+
 _TAGS = {}
 
 
@@ -76,8 +93,9 @@ def enc(case, x):
     unorderable types (int, str, tuple, plain object); otherwise the int itself."""
     if not case.get('mixed_args'):
         return x
-    k = x % 4
-    return x if k == 0 else 'v%d' % x if k == 1 else (x,) if k == 2 else _TAGS.setdefault(x, Tag(x))
+    k = x % 5
+    return x if k == 0 else 'v%d' % x if k == 1 else (x,) if k == 2 else _TAGS.setdefault(x, Tag(x)) if k == 3 \
+        else _TAGS.setdefault(x, Wild(x))
 
 
 def dec(v):
